@@ -134,23 +134,12 @@ def fromImage (E : Env) (path : Str) (u : SUnit) : R (SUnit × Str) := do
 def endsWith (x suf : Str) : Bool := suf.isSuffixOf x
 def startsWith (x pre : Str) : Bool := pre.isPrefixOf x
 
-/-- Rust path joins used by absolute_from -/
-def isAbs (p : Str) : Bool := p.head? == some '/'
-def joinPath (root p : Str) : Str :=
-  if isAbs p then p else if root.isEmpty then p else if root.getLast? == some '/' then root ++ p else root ++ '/' :: p
-
-def firstComponentLen (p : Str) : Nat :=
-  match Pth.components p with
-  | [] => 0
-  | c :: _ => (Pth.compStr c).length
-def startsWithSpecifier (p : Str) : Bool :=
-  if p.length ≤ 1 then false
-  else if firstComponentLen p == 2 then
-    if startsWith p (s "%%") then false else startsWith p (s "%")
-  else false
-/-- absolute_from_unit for a unit with an absolute path -/
-def absFromUnit (unitPath p : Str) : Str :=
-  if !startsWithSpecifier p && !isAbs p then Pth.cleaned (joinPath (dirName unitPath) p) else Pth.cleaned p
+def isAbs (p : Str) : Bool := Pth.isAbs p
+def joinPath (root p : Str) : Str := Pth.joinPath root p
+def startsWithSpecifier (p : Str) : Bool := Pth.startsWithSpecifier p
+/-- absolute_from_unit; the generator's working directory is only consulted for unit files given by a bare file name
+    (never the case in `process`, which joins the search directory), modelled as the empty path -/
+def absFromUnit (unitPath p : Str) : Str := Pth.absoluteFromUnit [] unitPath p
 
 /-- handle_image_source -/
 def handleImageSource (E : Env) (name : Str) (svc : SUnit) : R (Str × SUnit) :=
